@@ -476,7 +476,7 @@ class C13(Check):
     # -- correspondence: patterns ------------------------------------------------------------------
     def corr_acc(self, ctx):
         rng = ctx.sub_rng('acc')
-        per = ctx.n(80, 700)
+        per = ctx.n(80, 1400)
         lines, exp = [], []
         for i, pn, name, ast_ in self.entries:
             rx = self.P._profilesProperties[pn][name]
@@ -528,7 +528,7 @@ class C13(Check):
             x = list(x)
             return ','.join(enc(p) for p in x) if x else 'E'
 
-        for _ in range(ctx.n(2500, 30000)):
+        for _ in range(ctx.n(2500, 60000)):
             name = rng.choice(self.names) if rng.random() < 0.85 else rng.choice(['x', 'colour', '', 'COLOR', '-moz-x'])
             v, kind = self.value_for(name, rng)
             d = rng.choice(defaults)
@@ -678,70 +678,118 @@ class C13(Check):
 
     def corr_props_and_sheets(self, ctx):
         rng = ctx.sub_rng('sheets')
-        sheets = [self.gen_sheet(rng) for _ in range(ctx.n(1200, 14000))]
+        sheets = [self.gen_sheet(rng) for _ in range(ctx.n(1200, 30000))]
         self.check_sheets(ctx, sheets, 'gen')
+
+    def analyse_sheet(self, css):
+        """one sheet on the implementation -> (driver lines, expected replies, case records, violations)"""
+        P = self.P
+        lines, exp, cases, viols = [], [], [], []
+        s = self.parse(css)
+        toks = []
+        for r in s.cssRules:
+            toks += self.rule_tokens(r)
+        with time_limit(10):
+            sv = s.valid
+            rv = [('-' if not hasattr(r, 'valid') else '1' if r.valid else '0') for r in s.cssRules]
+        props = []
+        for r in s.cssRules:
+            props += self.all_props(r)
+        pv = []
+        for path, p, eff in props:
+            with time_limit(10):
+                pv.append(bool(p.valid))
+            if p.value.endswith('\n'):
+                viols.append(('Property.value does not end in a line feed (assumption of the keyword theorem)',
+                              {'css': css, 'property': p.name, 'value': p.value}, None, None))
+        # reading of the property text: every declaration anywhere valid (+ @font-face needs both descriptors)
+        allvalid = all(pv)
+        for r in s.cssRules:
+            if r.type == r.FONT_FACE_RULE:
+                names = [p.name for p in r.style.getProperties(all=True)]
+                allvalid = allvalid and 'font-family' in names and 'src' in names
+        got = 'ok %d %s %d' % (sv, ','.join(rv) if rv else 'E', allvalid)
+        cases.append((('sheet', css), not all(pv), 'valid=%d' % sv, {'sheet': css, 'impl': got}))
+        lines.append(('sheet N ' + ' '.join(toks)).rstrip())
+        exp.append((css, got))
+        # property-level correspondence for every declaration in its context
+        for (path, p, eff), v in zip(props, pv):
+            ff = 'FONT_FACE_RULE' in path
+            cases.append((('prop', ff, p.name, p.value, p.priority), v, 'prop:parsed:%d' % v, None))
+            lines.append('prop N %d %s %s %s' % (ff, enc(p.name), enc(p.value), enc(p.priority)))
+            exp.append((css, p.name, p.value, p.priority, 'ok %d' % v))
+            w = {'css': css, 'property': p.name, 'value': p.value, 'priority': p.priority}
+            if p.name not in P.knownNames and v:
+                viols.append(('a property with an unknown name is never valid', w, {'valid': True}, None))
+            if p.priority not in ('', 'important') and v:
+                viols.append(('a declaration whose priority is not !important is never valid', w, {'valid': True}, None))
+            if ff and v and not self.fontface_member(p.name, p.value):
+                viols.append(('inside @font-face only font descriptors with descriptor values are valid', w,
+                              {'valid': True}, None))
+            if ff and not v and p.priority in ('', 'important') and self.fontface_member(p.name, p.value) \
+                    and self.fold(p.value) in FONTFACE_KEYWORDS.get(p.name, ()):
+                viols.append(('inside @font-face the descriptor keywords are valid', w, {'valid': False}, None))
+        # oracle: conjunction, as the property text reads it
+        if bool(sv) != allvalid:
+            viols.append(('a sheet is valid iff all its declarations are', {'css': css},
+                          {'sheet.valid': bool(sv), 'all declarations valid': allvalid,
+                           'invalid': [(p.name, p.value) for (_, p, _), v in zip(props, pv) if not v]},
+                          self.conj_region(s, props, pv, sv)))
+        return lines, exp, cases, viols
+
+    def shrink_sheet(self, css, clause):
+        """greedy: drop whole rules (lines), then single declarations of flat rules, while the same clause is
+        still violated outside the known regions"""
+        def bad(text):
+            try:
+                return any(c == clause and k is None for c, _, _, k in self.analyse_sheet(text)[3])
+            except TimeLimit:
+                raise
+            except Exception:
+                return False
+        rules = css.split('\n')
+        i = 0
+        while i < len(rules) and len(rules) > 1:
+            cand = rules[:i] + rules[i + 1:]
+            if bad('\n'.join(cand)):
+                rules = cand
+            else:
+                i += 1
+        for k, r in enumerate(rules):
+            m = re.fullmatch(r'([^{}]*)\{([^{}]*)\}', r)
+            if not m:
+                continue
+            decls = m.group(2).split(';')
+            j = 0
+            while j < len(decls) and len(decls) > 1:
+                cand = decls[:j] + decls[j + 1:]
+                text = '\n'.join(rules[:k] + ['%s{%s}' % (m.group(1), ';'.join(cand))] + rules[k + 1:])
+                if bad(text):
+                    decls = cand
+                else:
+                    j += 1
+            rules[k] = '%s{%s}' % (m.group(1), ';'.join(decls))
+        return '\n'.join(rules)
 
     def check_sheets(self, ctx, sheets, tag):
         lines, exp = [], []
-        P = self.P
+        reported = 0
         for css in sheets:
-            try:
-                s = self.parse(css)
-            except TimeLimit:
-                raise
-            toks = []
-            for r in s.cssRules:
-                toks += self.rule_tokens(r)
-            with time_limit(10):
-                sv = s.valid
-                rv = [('-' if not hasattr(r, 'valid') else '1' if r.valid else '0') for r in s.cssRules]
-            props = []
-            for r in s.cssRules:
-                props += self.all_props(r)
-            pv = []
-            for path, p, eff in props:
-                with time_limit(10):
-                    pv.append(bool(p.valid))
-                if p.value.endswith('\n'):
-                    ctx.violate('Property.value does not end in a line feed (assumption of the keyword theorem)',
-                                {'css': css, 'property': p.name, 'value': p.value}, None)
-            # reading of the property text: every declaration anywhere valid (+ @font-face needs both descriptors)
-            allvalid = all(pv)
-            for r in s.cssRules:
-                if r.type == r.FONT_FACE_RULE:
-                    names = [p.name for p in r.style.getProperties(all=True)]
-                    allvalid = allvalid and 'font-family' in names and 'src' in names
-            got = 'ok %d %s %d' % (sv, ','.join(rv) if rv else 'E', allvalid)
-            ctx.case(key=('sheet', css), nontrivial=not all(pv), kind='sheet:%s:valid=%d' % (tag, sv),
-                     sample={'sheet': css, 'impl': got})
-            lines.append(('sheet N ' + ' '.join(toks)).rstrip())
-            exp.append((css, got))
-            # property-level correspondence for every declaration in its context
-            for (path, p, eff), v in zip(props, pv):
-                ff = 'FONT_FACE_RULE' in path
-                ctx.case(key=('prop', ff, p.name, p.value, p.priority), nontrivial=v, kind='prop:parsed:%d' % v)
-                lines.append('prop N %d %s %s %s' % (ff, enc(p.name), enc(p.value), enc(p.priority)))
-                exp.append((css, p.name, p.value, p.priority, 'ok %d' % v))
-                if p.name not in P.knownNames and v:
-                    ctx.violate('a property with an unknown name is never valid',
-                                {'css': css, 'property': p.name, 'value': p.value}, {'valid': True})
-                if p.priority not in ('', 'important') and v:
-                    ctx.violate('a declaration whose priority is not !important is never valid',
-                                {'css': css, 'property': p.name, 'priority': p.priority}, {'valid': True})
-                if ff and v and not self.fontface_member(p.name, p.value):
-                    ctx.violate('inside @font-face only font descriptors with descriptor values are valid',
-                                {'css': css, 'property': p.name, 'value': p.value}, {'valid': True})
-                if ff and not v and p.priority in ('', 'important') and self.fontface_member(p.name, p.value) \
-                        and self.fold(p.value) in FONTFACE_KEYWORDS.get(p.name, ()):
-                    ctx.violate('inside @font-face the descriptor keywords are valid',
-                                {'css': css, 'property': p.name, 'value': p.value}, {'valid': False})
-            # oracle: conjunction, as the property text reads it
-            if bool(sv) != allvalid:
-                known = self.conj_region(s, props, pv, sv)
-                ctx.violate('a sheet is valid iff all its declarations are',
-                            {'css': css}, {'sheet.valid': bool(sv), 'all declarations valid': allvalid,
-                                           'invalid': [(p.name, p.value) for (_, p, _), v in zip(props, pv) if not v]},
-                            known=known)
+            l, e, cases, viols = self.analyse_sheet(css)
+            lines += l
+            exp += e
+            for key, nontrivial, kind, sample in cases:
+                ctx.case(key=key, nontrivial=nontrivial, sample=sample,
+                         kind=kind if kind.startswith('prop') else 'sheet:%s:%s' % (tag, kind))
+            for clause, witness, detail, known in viols:
+                if known is None and reported < 3:
+                    reported += 1
+                    small = self.shrink_sheet(css, clause)
+                    for c2, w2, d2, k2 in self.analyse_sheet(small)[3]:
+                        if c2 == clause and k2 is None:
+                            witness, detail = dict(w2, shrunk_from=css), d2
+                            break
+                ctx.violate(clause, witness, detail, known=known)
         self.compare(ctx, 'sheet.valid / rule.valid / Property.valid', lines, exp)
 
     def conj_region(self, s, props, pv, sv):
@@ -776,7 +824,7 @@ class C13(Check):
         rng = ctx.sub_rng('spell')
         cu = self.cu
         lines, exp = [], []
-        for _ in range(ctx.n(1200, 10000)):
+        for _ in range(ctx.n(1200, 20000)):
             name = rng.choice(self.names) if rng.random() < 0.93 else rng.choice(['x', 'colour'])
             v, kind = self.value_for(name, rng)
             v = ' '.join(v.split())
@@ -957,7 +1005,7 @@ class C13(Check):
     def oracle_annotates(self, ctx):
         rng = ctx.sub_rng('annot')
         cu = self.cu
-        for _ in range(ctx.n(400, 5000)):
+        for _ in range(ctx.n(400, 8000)):
             css = self.gen_sheet(rng)
             variants = {}
             with time_limit(20):
@@ -1151,23 +1199,34 @@ class C13(Check):
     def replay(self, ctx, data):
         self.setup(ctx)
         w = data.get('witness') or {}
-        if data.get('kind') == 'impl-violates' and 'css' in w and 'sheet' in (data.get('clause') or ''):
-            self.check_sheets(ctx, [w['css']], 'replay')
-        elif data.get('kind') == 'impl-violates' and 'css' in w and 'property' in w:
-            s = self.parse(w['css'])
-            ps = s.cssRules[0].style.getProperties(all=True) if s.cssRules.length else []
-            det = data.get('detail') or {}
-            if 'css21_grammar_member' in det and bool(ps and ps[0].valid) != det['css21_grammar_member']:
-                ctx.violate(data.get('clause'), w, {'valid': bool(ps and ps[0].valid)})
-            elif 'css21_grammar_member' not in det:
-                self.run(ctx)
-        elif data.get('kind') == 'impl-violates' and 'css_a' in w:
+        det = data.get('detail') or {}
+        clause = data.get('clause') or ''
+        if data.get('kind') != 'impl-violates':
+            self.run(ctx)
+        elif 'css_a' in w:
             a = self.parse(w['css_a'])
             b = self.parse(w['css_b'])
             oa = [self.prop_obs(p) for p in a.cssRules[0].style.getProperties(all=True)] if a.cssRules.length else []
             ob = [self.prop_obs(p) for p in b.cssRules[0].style.getProperties(all=True)] if b.cssRules.length else []
             if oa != ob:
-                ctx.violate(data.get('clause'), w, {'a': oa, 'b': ob})
+                ctx.violate(clause, w, {'a': oa, 'b': ob})
+        elif 'css' in w and 'css21_grammar_member' in det:
+            s = self.parse(w['css'])
+            ps = s.cssRules[0].style.getProperties(all=True) if s.cssRules.length else []
+            if bool(ps and ps[0].valid) != det['css21_grammar_member']:
+                ctx.violate(clause, w, {'valid': bool(ps and ps[0].valid)})
+        elif 'css' in w and 'serialised' in w:
+            s = self.parse(w['css'])
+            text = s.cssText.decode('utf-8') if isinstance(s.cssText, bytes) else s.cssText
+            s2 = self.parse(text)
+            o1 = [self.prop_obs(p) for r in s if hasattr(r, 'style') for p in r.style.getProperties(all=True)]
+            o2 = [self.prop_obs(p) for r in s2 if hasattr(r, 'style') for p in r.style.getProperties(all=True)]
+            if o1 != o2:
+                ctx.violate(clause, w, {'before': o1, 'after': o2})
+        elif 'css' in w and not any(k in w for k in ('a', 'b', 'path')):
+            for c2, w2, d2, k2 in self.analyse_sheet(w['css'])[3]:
+                if k2 is None:
+                    ctx.violate(c2, w2, d2)
         else:
             self.run(ctx)
 
